@@ -1,5 +1,5 @@
 """C09 basic_json behaves as a value-semantic JSON container - union typestate, exhaustiveness, lifecycle dispatch."""
-from .. import peval as P, frontend as F, ast as A, cfg as C, util as U, kinds as K
+from .. import guards as G, peval as P, frontend as F, ast as A, cfg as C, util as U, kinds as K
 
 EXPLANATION = ('Tagged-union typestate for basic_json (kind-set dataflow over every member function of every instantiation): '
                '(R09.1) every cast<S_storage>() is executed only when the object can hold exactly the storage kind of S; '
@@ -352,6 +352,89 @@ def r09_7(chk, facts):
         if n >= 8: break     # two instantiations are enough (json, ojson)
     chk.require(n >= 4, 'R09.7: only %d storage-kind cases found in the copy routines' % n)
 
+def r09_8(chk, facts):
+    """lower_bound finds a position, not a match."""
+    chk.rule('R09.8', 'sorted object look-ups: wherever sorted_json_object treats the position returned by std::lower_bound as the member with the '
+                      'searched key (it assigns through it: pos->value(x), or returns it as "found"), that use is reached only after the key at '
+                      'the position was compared equal with the searched key (besides the end() test); lower_bound alone gives the first '
+                      'member that is not less, which is a different member whenever the key is absent', floor=4)
+    n = 0; seen = set()
+    for fn in facts.functions:
+        if fn.get('body') is None or fn.get('dep') or not fn['file'].endswith('sorted_json_object.hpp') or (fn['file'], fn['l']) in seen: continue
+        pos = {}
+        for x in A.walk_no_lambda(fn['body']):
+            e = None; vid = None
+            if x.get('k') == 'VarDecl' and x.get('init') is not None: e, vid = x['init'], x.get('id')
+            if x.get('k') == 'BinaryOperator' and x.get('op') == '=' and (A.strip(x.get('lhs'), casts=True) or {}).get('k') == 'DeclRefExpr': e, vid = x.get('rhs'), A.strip(x['lhs'], casts=True).get('id')
+            if x.get('k') == 'CXXOperatorCallExpr' and x.get('oop') == '=' and len(x.get('args') or []) == 2 and (A.strip(x['args'][0], casts=True) or {}).get('k') == 'DeclRefExpr': e, vid = x['args'][1], A.strip(x['args'][0], casts=True).get('id')
+            if e is not None and any(A.callee_name(c) == 'lower_bound' for c in A.calls_in(e)): pos[vid] = True
+        if not pos: continue
+        g = C.CFG(fn['body'])
+        seen.add((fn['file'], fn['l']))
+        def of_pos(e):
+            return any(y.get('k') == 'DeclRefExpr' and y.get('id') in pos for y in A.walk(e))
+        for nd in g.rpo:
+            if nd.kind not in ('stmt', 'return') or not isinstance(nd.ast, dict): continue
+            uses = [c for c in A.calls_in(nd.ast) if c.get('k') == 'CXXMemberCallExpr' and A.callee_name(c) == 'value' and c.get('args') and of_pos(c.get('obj'))]
+            if not uses: continue
+            n += 1
+            chk.analysed(fn)
+            ok = False
+            for a, lab, e in g.guards(nd):
+                for y in A.walk(a):
+                    cm = G.comparison(y) if y.get('k') in ('BinaryOperator', 'CXXOperatorCallExpr') else None
+                    if not cm or cm[0] not in ('==', '!='): continue
+                    if not any(A.callee_name(c) == 'key' and of_pos(c.get('obj')) for z in (cm[1], cm[2]) for c in A.calls_in(z)): continue
+                    if (cm[0] == '==') == bool(lab): ok = True
+            site = U.site(fn, 'assignment through lower_bound position, line %s' % uses[0].get('l'))
+            if ok: chk.ok('R09.8', site, None)
+            else:
+                chk.fail('R09.8', site, fn['file'], uses[0].get('l'), '%s assigns through the lower_bound position at line %s without having compared its key with the searched key: '
+                         'when the key is absent the value of the next greater member is overwritten and the new member is lost' % (fn['n'], uses[0].get('l')), None, fn['q'])
+    chk.require(n >= 4, 'R09.8: only %d assignments through lower_bound positions found' % n)
+
+def r09_9(chk, facts):
+    """Two doubles are compared, not subtracted."""
+    chk.rule('R09.9', 'ordering of doubles: compare() never decides the order of two values that can both be infinite from the sign of their '
+                      'difference (`r = a - b; r == 0 ? ...`): inf - inf is NaN, so two equal infinities would compare as different; a '
+                      'difference is accepted when one operand is an integer converted to double (always finite) or when the equality of the '
+                      'two operands was tested first', floor=4)
+    n = 0; seen = set()
+    for fn in U.one_per_inst([f for f in facts.functions if f['n'] == 'compare' and A.strip_targs(f.get('cls') or '').endswith('basic_json') and f['file'].endswith('basic_json.hpp') and f.get('body') is not None and not f.get('dep')])[:2]:
+        chk.analysed(fn)
+        g = C.CFG(fn['body'])
+        al = A.pure_aliases(fn['body'])
+        def finite(e):
+            # a value converted from an integer type
+            s_ = A.strip(e)
+            while s_ is not None and s_.get('k') in A.EXPLICIT_CASTS + ('ImplicitCastExpr', 'ParenExpr'):
+                sub = s_.get('sub')
+                st = fn['_types'][sub['t'] - 1] if sub is not None and sub.get('t') else ''
+                if s_.get('ck') in ('IntegralToFloating',) or (st and not any(w in st for w in ('double', 'float'))): return True
+                s_ = sub
+            return False
+        for d in A.walk_no_lambda(fn['body']):
+            if d.get('k') != 'VarDecl' or d.get('init') is None: continue
+            i = A.strip(d['init'], casts=False)
+            if i is None or i.get('k') != 'BinaryOperator' or i.get('op') != '-': continue
+            tn = fn['_types'][d['t'] - 1] if d.get('t') else ''
+            if 'double' not in tn and 'float' not in tn: continue
+            n += 1
+            site = U.site(fn, 'difference at line %s' % d.get('l'))
+            if finite(i.get('lhs')) or finite(i.get('rhs')):
+                chk.ok('R09.9', site, {'one_operand': 'integer converted to double'}); continue
+            ca, cb = A.canon(i.get('lhs'), al), A.canon(i.get('rhs'), al)
+            dn = g.node_of(d)
+            tested = False
+            for a, lab, e in (g.guards(dn) if dn is not None else []):
+                cm = G.comparison(a)
+                if cm and cm[0] in ('==', '!=') and {A.canon(cm[1], al), A.canon(cm[2], al)} == {ca, cb} and ((cm[0] == '==') != bool(lab)): tested = True
+            if tested: chk.ok('R09.9', site, {'equality_tested_first': True})
+            else:
+                chk.fail('R09.9', site, fn['file'], d.get('l'), 'compare() orders `%s` and `%s` by the sign of their difference: for two infinities of the same sign the difference is NaN and '
+                         'equal values compare as different' % (ca[:40], cb[:40]), None, fn['q'])
+    chk.require(n >= 4, 'R09.9: only %d floating differences found in compare()' % n)
+
 def value_semantics(chk, tier):
     """The basic_json value operations that the patch algorithms are written in terms of: kind-safe storage access in every member function
     (R09.1/R09.2), the comparison matrix (R09.5), the copy siblings (R09.7) and whole-character copies/compares (R05.12)."""
@@ -375,5 +458,7 @@ def run(chk, tier, only_rule=None):
     r09_6(chk, facts)
     r09_5(chk, facts, model)
     r09_7(chk, facts)
+    r09_8(chk, facts)
+    r09_9(chk, facts)
     from . import c05
     c05.r05_12(chk, tier, units=('core', 'patch'))     # object keys of wide-character documents are compared whole
